@@ -67,12 +67,17 @@ spec_be_val(const uint8_t * p, size_t n)
 	return (v);
 }
 
-/* byte i (0 = most significant) of the 256-byte big-endian, left-padded encoding of v < 2^2048 */
+/* byte i (0 = most significant) of the 256-byte big-endian, left-padded encoding of v < 2^2048
+   (table of the 256 bytes by constant shifts, then one lookup: no variable-distance shift of 2112 bits) */
 static uint8_t
 spec_be256_byte(spec_big_t v, size_t i)
 {
+	uint8_t b[256];
+	size_t k;
 
-	return ((uint8_t)((v >> (8 * (255 - i))) & 0xff));
+	for (k = 0; k < 256; k++)
+		b[k] = (uint8_t)((v >> (8 * (255 - k))) & 0xff);
+	return (b[i]);
 }
 
 #endif /* !RFC3526_GROUP14_H_ */
